@@ -105,6 +105,7 @@ CTXS = {
     'f32': 'fp.FP32', 'f64': 'fp.FP64',
     's8': 'fp.SINT8', 's16': 'fp.SINT16', 's32': 'fp.SINT32', 's64': 'fp.SINT64',
     'u8': 'fp.UINT8', 'u16': 'fp.UINT16', 'u32': 'fp.UINT32', 'u64': 'fp.UINT64',
+    'x25': 'fp.FixedContext(True, -1, 26)',        # members need 25 significand bits: double is the only storage
 }
 
 
@@ -536,6 +537,18 @@ class Prepared:
             key = (body, tuple(p.format() for p in params), ret.format())
             if key in seen:
                 self.kernel_opts[seen[key]].append(name)
+                continue
+            try:
+                for a in self.inputs:
+                    for v, cty in zip(a, params):
+                        cxx.cpp_value(v, cty)
+            except cxx.HarnessError as e:
+                # the inputs are members of the declared parameter formats by construction: the chosen storage cannot hold one
+                res.fail('storage/parameter-type-cannot-hold-format-member',
+                         {'src': case['src'], 'main': case['main'], 'ctx': case['ctx'], 'arg_types': case['arg_types'],
+                          'entry_rm': case['entry_rm'], 'options': [name], 'inputs': [enc_val_list(self.inputs[0])],
+                          'features': sorted(feats), 'extra_public': case.get('extra_public', []), 'origin': case.get('origin')},
+                         expected='storage containing the parameter format', got=f'{[p.format() for p in params]}: {e}')
                 continue
             seen[key] = len(self.kernels)
             k = cxx.Kernel(ns=f'k{self.pidx}_{len(self.kernels)}', body=body, entry=case['main'], params=params, ret=ret,
